@@ -98,37 +98,44 @@ Definition strategy_eqb (a b : strategy) : bool :=
   | _, _ => false
   end.
 
-(* "Determine Placement" + "Place" + "Iterate" for one moment-or-operation *)
+(* "Determine Placement": the index p, the cache after _PlacementCache.append, the moment list
+   (NEW / NEW_THEN_INLINE insert a blank moment at k first) *)
+Definition determine (st : ist) (it : item) : nat * option pcache * list moment :=
+  match i_cache st with
+  | Some pc => let '(idx, pc') := cache_append pc it in (idx, Some pc', i_ms st)
+  | None =>
+      match it with
+      | IMom _ => (i_k st, None, i_ms st)
+      | IOp o =>
+          match i_s st with
+          | NEW | NEW_THEN_INLINE => (i_k st, None, insert_at (i_k st) [] (i_ms st))
+          | INLINE => (Nat.pred (i_k st), None, i_ms st)
+          | EARLIEST => (earliest_available_moment (i_ms st) o (i_k st), None, i_ms st)
+          | LATEST => (i_k st, None, i_ms st)      (* not reached: LATEST returns before this loop *)
+          end
+      end
+  end.
+
+(* "Place": a Moment is inserted intact at p; an operation opens a new last moment when p = len,
+   otherwise joins moment p through Moment.with_operation (which checks the qubits) *)
+Definition place (ms1 : list moment) (p : nat) (it : item) : list moment + err :=
+  match it with
+  | IMom m => inl (insert_at p m ms1)
+  | IOp o =>
+      if Nat.eqb p (length ms1) then inl (ms1 ++ [[o]])
+      else match nth_error ms1 p with
+           | None => inr IndexError
+           | Some m => match with_operation m o with
+                       | None => inr ValueError
+                       | Some m' => inl (replace_nth p m' ms1)
+                       end
+           end
+  end.
+
+(* one moment-or-operation: determine, place, iterate (max_p, NEW_THEN_INLINE switch) *)
 Definition place_item (st : ist) (it : item) : ist * option err :=
-  let '(p, cache1, ms1) :=
-    match i_cache st with
-    | Some pc => let '(idx, pc') := cache_append pc it in (idx, Some pc', i_ms st)
-    | None =>
-        match it with
-        | IMom _ => (i_k st, None, i_ms st)
-        | IOp o =>
-            match i_s st with
-            | NEW | NEW_THEN_INLINE => (i_k st, None, insert_at (i_k st) [] (i_ms st))
-            | INLINE => (Nat.pred (i_k st), None, i_ms st)
-            | EARLIEST => (earliest_available_moment (i_ms st) o (i_k st), None, i_ms st)
-            | LATEST => (i_k st, None, i_ms st)      (* not reached: LATEST returns before this loop *)
-            end
-        end
-    end in
-  let placed : list moment + err :=
-    match it with
-    | IMom m => inl (insert_at p m ms1)
-    | IOp o =>
-        if Nat.eqb p (length ms1) then inl (ms1 ++ [[o]])
-        else match nth_error ms1 p with
-             | None => inr IndexError
-             | Some m => match with_operation m o with
-                         | None => inr ValueError
-                         | Some m' => inl (replace_nth p m' ms1)
-                         end
-             end
-    end in
-  match placed with
+  let '(p, cache1, ms1) := determine st it in
+  match place ms1 p it with
   | inr e => (mki ms1 cache1 (i_k st) (i_s st) (i_maxp st), Some e)
   | inl ms2 =>
       let maxp := Nat.max p (i_maxp st) in
@@ -215,12 +222,16 @@ Fixpoint latest_items (k : nat) (st : lst) (its : list item) : lst * option err 
                end
   end.
 (* batches are processed in reverse order, the items of one batch in order *)
+Fixpoint latest_batches (k : nat) (st : lst) (bs : list (list item)) : lst * option err :=
+  match bs with
+  | [] => (st, None)
+  | b :: r => match latest_items k st b with
+              | (st', None) => latest_batches k st' r
+              | bad => bad
+              end
+  end.
 Definition insert_latest (k : nat) (ms : list moment) (batches : list (list item)) : lst * option err :=
-  fold_left (fun (acc : lst * option err) b =>
-               match acc with
-               | (st, None) => latest_items k st b
-               | bad => bad
-               end) (rev batches) (mkl ms (-1), None).
+  latest_batches k (mkl ms (-1)) (rev batches).
 
 (* ---- Circuit.insert(index, tree, strategy): new state and returned index, or the exception
         together with the state the exception leaves behind ---- *)
